@@ -121,6 +121,7 @@ pub(crate) struct PositionCalculator<'a> {
     pos: usize,
     line: usize,
     column: usize,
+    last_was_cr: bool,
 }
 
 impl<'a> PositionCalculator<'a> {
@@ -130,6 +131,7 @@ impl<'a> PositionCalculator<'a> {
             pos: 0,
             line: 1,
             column: 1,
+            last_was_cr: false,
         }
     }
 
@@ -141,8 +143,11 @@ impl<'a> PositionCalculator<'a> {
         for ch in chars_to_read {
             match ch {
                 '\r' => {
+                    self.line += 1;
                     self.column = 1;
                 }
+                // the line feed of a `\r\n` pair was already counted
+                '\n' if self.last_was_cr => {}
                 '\n' => {
                     self.line += 1;
                     self.column = 1;
@@ -151,6 +156,7 @@ impl<'a> PositionCalculator<'a> {
                     self.column += 1;
                 }
             }
+            self.last_was_cr = ch == '\r';
         }
         self.pos = pos;
         self.input = &self.input[bytes_to_read..];
